@@ -239,7 +239,8 @@ fn run_item(env: &Env, b: &Builtin, r: usize, acc: &mut Acc) {
 
 fn main() {
     let mut run = Run::from_env("C17", "exploration");
-    let thorough = run.tier.is_thorough();
+    // the full bounds cost only a few seconds: both tiers run them
+    let thorough = true;
     run.rule(
         "One case = one call `{{ v | f(k=a,..) }}` / `{{ v is t(k=a,..) }}` / `{{ fn(k=a,..) }}` rendered by the real engine with the \
          receiver and every keyword argument bound as context variables (absent argument = omitted from the source), plus the same call \
